@@ -235,3 +235,49 @@ Theorem C05_system_mixed_basis_raises : forall w b ps mol, Exists (fun p => fst 
   fst (call_stream w (System b ps) mol) = Some ERuntime.
 Proof. exact mixed_basis_call_lemma. Qed.
 Print Assumptions C05_system_mixed_basis_raises.
+
+(* ---------- index remapping between packages ---------- *)
+(* [targets tbl] are the indices a table writes to; [wmap aT tbl] is the functional that [aT]
+   induces on the source side (same chemical, same weight).  A remap under an injective table
+   carries every weighted sum over. *)
+Theorem C05_remap_dot : forall aT size tbl d res,
+  NoDup (targets tbl) -> (forall i, In i (targets tbl) -> (i < size)%nat) ->
+  remap size tbl d = Ok res ->
+  length res = size /\ vdot aT res == vdot (wmap aT tbl) d.
+Proof. exact remap_dot. Qed.
+Print Assumptions C05_remap_dot.
+
+(* Reaction / ReactionSet.reset_chemicals: the reaction moved to another package keeps conversion,
+   basis and phases, its reactant is the same chemical, and it annihilates [aT] there exactly when it
+   annihilated the corresponding functional at home (so C05_stream_conserved applies on the new package) *)
+Theorem C05_retarget_balanced : forall aT size tbl r r',
+  NoDup (targets tbl) -> (forall i, In i (targets tbl) -> (i < size)%nat) ->
+  retarget size tbl r = Ok r' ->
+  length (st r') = size /\ X r' = X r /\ wt r' = wt r /\ phases r' = phases r /\
+  nth (ridx r) tbl None = Some (ridx r') /\
+  vdot aT (st r') == vdot (wmap aT tbl) (st r).
+Proof. exact retarget_balanced_lemma. Qed.
+Print Assumptions C05_retarget_balanced.
+
+(* a stream on another package: the flows are carried to the reaction's package, reacted there as a
+   stream of that package (C05_stream_conserved, C05_nonneg_or_raise apply to that step) and carried
+   back; corresponding functionals (atoms, mass of the same chemicals) read the same on both sides *)
+Theorem C05_other_package : forall w o nA fwd bwd mol mol' aA aB,
+  NoDup (targets fwd) -> (forall i, In i (targets fwd) -> (i < nA)%nat) ->
+  NoDup (targets bwd) -> (forall i, In i (targets bwd) -> (i < length mol)%nat) ->
+  length fwd = length mol -> length bwd = nA -> length aB = length mol -> length aA = nA ->
+  (forall j i, nth j fwd (Some O) = Some i -> (j < length fwd)%nat -> nthq aA i == nthq aB j) ->
+  (forall i j, nth i bwd (Some O) = Some j -> (i < length bwd)%nat -> nthq aB j == nthq aA i) ->
+  call_other w o nA fwd bwd mol = (None, mol') ->
+  exists a a', remap nA fwd mol = Ok a /\ call_stream w o a = (None, a') /\
+    vdot aA a == vdot aB mol /\ vdot aB mol' == vdot aA a'.
+Proof. exact other_package_lemma. Qed.
+Print Assumptions C05_other_package.
+
+Example C05_nonvacuous_retarget :
+  exists r', retarget 3 [Some 2%nat; None; Some 0%nat; Some 1%nat] (mkrxn [-1; 0; -2; 1] 0 (1 # 2) false []) = Ok r'
+    /\ st r' = [-2; 1; -1] /\ ridx r' = 2%nat /\ NoDup (targets [Some 2%nat; None; Some 0%nat; Some 1%nat]).
+Proof.
+  eexists. split; [vm_compute; reflexivity|]. simpl. repeat split.
+  repeat constructor; simpl; intuition lia.
+Qed.
